@@ -18,6 +18,7 @@ type Value struct {
 	Fn    *ssa.Function
 	Free  []*Value
 	Iter  *mapIter
+	Guard *guardInfo // set on map/slice values (and element addresses) loaded from a `guarded` field (C11)
 }
 
 // Loc is a static description of a memory location: a cell of a heap component plus a path into the struct value stored there.
@@ -63,10 +64,21 @@ func (v *Value) String() string {
 // State is the symbolic heap at a program point: component -> current SMT term.
 type State struct {
 	heap map[string]string
+	// epoch: non-empty once "everything" has been havocked on the way to this state (a call without frame, a loop
+	// that may write anything).  A heap component first mentioned after that point must not be read at its entry
+	// version: it gets one unconstrained version per epoch (Encoder.comp).
+	havocs []havocRec
+}
+
+// havocRec: on the way to this state the components in ws (nil: all of them) were havocked; ep names the versions
+// that components first mentioned afterwards get.
+type havocRec struct {
+	ws *writeSet
+	ep string
 }
 
 func (s *State) clone() *State {
-	n := &State{heap: make(map[string]string, len(s.heap))}
+	n := &State{heap: make(map[string]string, len(s.heap)), havocs: append([]havocRec(nil), s.havocs...)}
 	for k, v := range s.heap {
 		n.heap[k] = v
 	}
@@ -100,4 +112,52 @@ type Obligation struct {
 	KnownOpen bool
 	// Preamble overrides enc for lemma obligations (self-contained SMT text).
 	Standalone string
+}
+
+// mergeEpoch: the havoc history of a state merged from several: the common one, or one record covering them all.
+func (e *Encoder) mergeEpoch(sts []*State) []havocRec {
+	if len(sts) == 0 {
+		return nil
+	}
+	same := true
+	for _, s := range sts[1:] {
+		if len(s.havocs) != len(sts[0].havocs) {
+			same = false
+			break
+		}
+		for i := range s.havocs {
+			if s.havocs[i].ep != sts[0].havocs[i].ep {
+				same = false
+			}
+		}
+	}
+	if same {
+		return append([]havocRec(nil), sts[0].havocs...)
+	}
+	u := newWS()
+	for _, s := range sts {
+		for _, h := range s.havocs {
+			if h.ws == nil {
+				return []havocRec{{nil, e.fresh("ep")}}
+			}
+			u.union(h.ws)
+		}
+	}
+	return []havocRec{{u, e.fresh("ep")}}
+}
+
+// havocEpoch marks st as having passed a havoc of every component.
+func (e *Encoder) havocEpoch(st *State) { st.havocs = append(st.havocs, havocRec{nil, e.fresh("ep")}) }
+
+// havocSet havocks the known components in ws and records it for components mentioned later.
+func (e *Encoder) havocSet(st *State, ws *writeSet) {
+	for _, k := range sortedKeys(e.compSort) {
+		if strings.HasPrefix(k, "LW.") || strings.HasPrefix(k, "LR.") || k == "alloc" || strings.HasPrefix(k, "ITER.") {
+			continue
+		}
+		if ws.matches(k) {
+			e.havocComp(st, k)
+		}
+	}
+	st.havocs = append(st.havocs, havocRec{ws, e.fresh("ep")})
 }
